@@ -28,7 +28,9 @@ Epochs == \A b \in 0..((Len(O.got) \div Len(O.want)) - 1) :
 Holds == CASE O.mode = "bag" -> Bag
            [] O.mode = "seq" -> SameSeq /\ Bag
            [] O.mode = "seq+order" -> SameSeq /\ Bag /\ WriteOrder
+           [] O.mode = "subseq" -> NoDup(O.got) /\ IsSubSeq(O.got, O.want)   \* a selection keeps the written order
            [] O.mode = "member" -> Member
+           [] O.mode = "partial" -> Member /\ NoDup(O.got)      \* a pass that stopped early (raised): nothing foreign, nothing twice
            [] O.mode = "periodic" -> Periodic /\ Member
            [] O.mode = "epochs" -> Epochs /\ Member
 Judge == Holds \/ PrintT(<<"FALSE", idx>>)
